@@ -218,10 +218,108 @@ def _known_key(mod, facet_name, case, violation):
     return None
 
 
+class _Blocked(object):
+    """
+    Watchdog for a check that never returns because the code under test waits
+    for a lock nobody is going to release (for example a lock of its own that
+    the same thread already holds).  Slowness is never reported: only a thread
+    that sits at the very same instruction of eliot's code for three samples
+    in a row while the whole process uses no CPU time counts; anything else
+    that takes too long ends as a harness error (inconclusive).
+    """
+
+    FIRST = 8.0
+    STEP = 4.0
+    GIVE_UP = 1800.0
+
+    def __init__(self):
+        self.armed = False
+        self.samples = []
+        self.started = 0.0
+        self.fired = None
+
+    def _alarm(self, signum, frame):
+        import signal
+
+        if not self.armed:
+            return
+        # (frame: where the main thread was interrupted)
+        if os.environ.get("VERIF_WD_DEBUG"):
+            sys.stderr.write("alarm pid=%d %s:%s samples=%d fired=%s\n" % (os.getpid(), frame.f_code.co_filename, frame.f_lineno, len(self.samples), bool(self.fired)))
+        prefix = os.path.join(REPO, "eliot") + os.sep
+        blocked = []
+        for tid, f in sys._current_frames().items():
+            if tid == _MAIN_THREAD:
+                f = frame
+            if f is not None and os.path.abspath(f.f_code.co_filename).startswith(prefix):
+                blocked.append((tid, id(f), f.f_lasti, f))
+        blocked.sort(key=lambda b: b[:3])
+        self.samples.append((tuple(b[:3] for b in blocked), time.process_time()))
+        last = self.samples[-3:]
+        if len(last) == 3 and blocked and last[0][0] == last[1][0] == last[2][0] and last[2][1] - last[0][1] < 0.05:
+            stack = "".join(traceback.format_stack(blocked[0][3])[-6:])
+            # (raised here, in the main thread, to get it going again - it may be the blocked one, or be waiting for it;
+            # eliot may well swallow the exception, so it is raised again when the check is over)
+            self.fired = "%s is blocked in eliot's own code and makes no progress (%.0f s, no CPU used by the process):\n%s" % (
+                "the call" if blocked[0][0] == _MAIN_THREAD else "a thread of the program",
+                time.time() - self.started,
+                stack,
+            )
+            self.samples = []
+            # one such call was established with patience; be quick about the next ones (same case, its replays, shrinking)
+            self.FIRST, self.STEP = 1.0, 0.5
+            signal.setitimer(signal.ITIMER_REAL, self.STEP)
+            raise Violation("never-returned", self.fired)
+        if time.time() - self.started > self.GIVE_UP:
+            self.armed = False
+            raise HarnessError("one case ran for more than %d s" % self.GIVE_UP)
+        signal.setitimer(signal.ITIMER_REAL, self.STEP)
+
+    def __enter__(self):
+        import signal
+        import threading
+
+        if threading.get_ident() != _MAIN_THREAD:
+            return self
+        self.samples = []
+        self.fired = None
+        self.started = time.time()
+        self.armed = True
+        signal.signal(signal.SIGALRM, self._alarm)
+        signal.setitimer(signal.ITIMER_REAL, self.FIRST)
+        return self
+
+    def __exit__(self, *exc):
+        import signal
+        import threading
+
+        self.armed = False
+        if threading.get_ident() == _MAIN_THREAD:
+            signal.setitimer(signal.ITIMER_REAL, 0)
+        return False
+
+
+import threading as _threading
+
+_MAIN_THREAD = _threading.main_thread().ident
+_blocked = _Blocked()
+
+
+def checked(facet, case):
+    """facet.check(case) under the watchdog above."""
+    try:
+        with _blocked:
+            return facet.check(case)
+    finally:
+        if _blocked.fired:
+            fired, _blocked.fired = _blocked.fired, None
+            raise Violation("never-returned", fired)
+
+
 def run_one(mod, facet, case):
     """Run check on one case.  Returns (info, violation_or_None, known_key)."""
     try:
-        info = facet.check(case)
+        info = checked(facet, case)
         return info, None, None
     except Violation as v:
         return None, v, _known_key(mod, facet.name, case, v)
@@ -301,7 +399,7 @@ def _hypothesis_shard(mod, facet, tier, seed, shard, count, stats):
             if time.time() - stats.first_failure_at > cap:
                 return  # shrink cap reached: let Hypothesis terminate quickly
         try:
-            info = facet.check(case)
+            info = checked(facet, case)
         except Violation as v:
             key = _known_key(mod, facet.name, case, v)
             if key is not None:
